@@ -150,6 +150,25 @@ def c19_1(ctx):
     c05_3(ctx)
 
 
+def c19_validated(ctx):
+    ctx.rule('C19.5', 'every variant that has an operands section gets an operand parser and is validated', 2)
+    for q in ('bespokeasm.assembler.model.instruction.InstructionVariant.__init__', 'bespokeasm.assembler.model.instruction_macro.InstructionMacroVariant.__init__'):
+        f = ctx.repo.func(q)
+        res = resolver(ctx, f, inline=False)
+        vs = [c for c in ast.walk(f.node) if isinstance(c, ast.Call) and unparse(c.func) == 'self._operand_parser.validate']
+        ok = len(vs) == 1
+        why = f'{len(vs)} validate call(s)'
+        if ok:
+            fcl = filter_facts_at(ctx, f, vs[0], res)
+            ok = fcl == [frozenset({('in', "'operands'", 'self._variant_config', True)})]
+            why = describe_facts(fcl)
+            pcs = [c for c in ast.walk(f.node) if isinstance(c, ast.Call) and unparse(c.func) == 'OperandParser']
+            ok = ok and len(pcs) == 1 and filter_facts_at(ctx, f, pcs[0], res) == fcl
+        ctx.check(ok, f'wellformed:variant-validated:{f.cls.name}', f.site(vs[0]) if vs else f.site(),
+                  'the operand parser is built and validated whenever the variant has an operands section (whatever its count)',
+                  f'built / validated only when {why}: operand count and operand-set references of the other variants are never checked')
+
+
 def c19_2(ctx):
     ctx.rule('C19.2', 'version gates compare parsed semantic versions', 2)
     vc = ctx.repo.func(MODEL + '._validate_config')
@@ -317,6 +336,11 @@ def c19_3(ctx):
 def c19_4(ctx):
     ctx.rule('C19.4', 'the ISA version string must be a semantic version', 1)
     init = ctx.repo.func(MODEL + '.__init__')
+    # the version compared by #require is the version as written in the definition (tags such as rc1 included)
+    for st_, t_, v_ in self_attr_stores(init.node, '_isa_version'):
+        txt = unparse(v_) if v_ is not None else ''
+        ok = txt in ("'0.0.1'", 'self._isa_version.strip()') or (txt.startswith("str(self._config['general']['identifier'].get('version'") and txt.endswith('.strip()'))
+        ctx.check(ok, 'isa-version:as-written', init.site(st_), 'the ISA version is kept as written (only surrounding blanks are removed)', txt)
     res = resolver(ctx, init, inline=False)
     h = [i for i in walk_no_nested(init.node) if isinstance(i, ast.If) and body_only_aborts(i.body) and unparse(i.test) == 'version_match is None']
     ok = len(h) == 1
@@ -327,12 +351,14 @@ def c19_4(ctx):
     ctx.check(ok, 'isa-version:validated', init.site(h[0]) if h else init.site(), 'an ISA version that is not wholly a semantic version is rejected', '')
 
 
-RULES = [c19_1, c19_2, c19_3, c19_4]
+RULES = [c19_1, c19_validated, c19_2, c19_3, c19_4]
 
 _M = 'assembler/model/__init__.py'
 _IS = 'assembler/model/instruction_set.py'
 _RL = 'assembler/line_object/preprocessor_line/required_language.py'
 MUTANTS = [
+    V('c19-count0-not-validated', 'assembler/model/instruction.py', "        if 'operands' in self._variant_config:\n            try:", "        if 'operands' in self._variant_config and self._variant_config['operands'].get('count', 1) != 0:\n            try:", 'C19.5'),
+    V('c19-version-base-only', 'assembler/model/__init__.py', "        self._isa_version = self._isa_version.strip()", "        self._isa_version = version.parse(self._isa_version).base_version", 'C19.4'),
     V('c19-register-keyword-ok', _M, "            if reg in ASSEMBLER_KEYWORD_SET:\n", "            if False:\n", 'C19.1'),
     V('c19-count-gt', 'assembler/model/operand_parser.py', "self.operand_count != self._operand_sets_model.operand_count:", "self.operand_count > self._operand_sets_model.operand_count:", 'C19.1'),
     V('c19-macro-collision', _IS, "                if mnemonic in self:\n                    sys.exit(f'ERROR - Macro \"{mnemonic}\" has same mnemonic as a configured instruction.')\n", "", 'C19.1'),
